@@ -43,6 +43,10 @@ class HM(HX, HB):
     """multiple inheritance: HA is reachable through the second base only"""
 
 
+class HM2(HB, HX):
+    """... and here through the first base only"""
+
+
 # a different class that is also *named* HB but derives from HX
 HBfake = type('HB', (HX,), {'__module__': __name__})
 
@@ -68,7 +72,7 @@ class PullBudget(BaseException):
     """A supplier was pulled beyond its budget (unbounded consumer)."""
 
 
-HARNESS_EXC = {'HA': HA, 'HB': HB, 'HC': HC, 'HX': HX, 'HM': HM,
+HARNESS_EXC = {'HA': HA, 'HB': HB, 'HC': HC, 'HX': HX, 'HM': HM, 'HM2': HM2,
                'HB~': HBfake, 'KeyError~': KeyErrorFake,
                'NotFound~': NotFoundFake, 'ZHB': ZHB, 'HBZ': HBZ, 'HQ': HQ}
 
